@@ -64,3 +64,19 @@ theorem nested_truncation_ge_local (Q : ℕ → (E →ₗ[𝕜] E)) (h0 : ∀ x,
   exact Finset.single_le_sum (f := fun k => ‖Q k x - Q (k + 1) x‖ ^ 2) (fun i _ => sq_nonneg _) (Finset.mem_range.mpr hk)
 
 end RenoVerif.Trunc
+
+namespace RenoVerif.Trunc
+variable {𝕜 E : Type} [RCLike 𝕜] [NormedAddCommGroup E] [InnerProductSpace 𝕜 E]
+
+theorem isOrthProj_id : IsOrthProj (𝕜 := 𝕜) (LinearMap.id : E →ₗ[𝕜] E) := ⟨fun _ _ => rfl, fun _ => rfl⟩
+theorem isOrthProj_zero : IsOrthProj (𝕜 := 𝕜) (0 : E →ₗ[𝕜] E) :=
+  ⟨fun x y => by simp, fun _ => by simp⟩
+
+/-- non-vacuity: the chain `id ⊇ 0 ⊇ 0 ⊇ …` satisfies the hypotheses of `nested_truncation` -/
+example (x : E) (n : ℕ) :
+    ‖x - (if n = 0 then (LinearMap.id : E →ₗ[𝕜] E) else 0) x‖ ^ 2
+      = ∑ k ∈ Finset.range n, ‖(if k = 0 then (LinearMap.id : E →ₗ[𝕜] E) else 0) x - (if k + 1 = 0 then (LinearMap.id : E →ₗ[𝕜] E) else 0) x‖ ^ 2 :=
+  nested_truncation (fun k => if k = 0 then (LinearMap.id : E →ₗ[𝕜] E) else 0) (fun _ => by simp)
+    (fun k => by by_cases h : k = 0 <;> simp [h, isOrthProj_id, isOrthProj_zero]) (fun k x => by simp) x n
+
+end RenoVerif.Trunc
